@@ -88,6 +88,8 @@ func TestVerifC01(t *testing.T) {
 		c01Scenario("pipeline-udp-L1-c2-loss-resend", tOpt{Kind: "pipeline-udp", Callers: 2, MaxCq: 1, IDs: []uint16{3, 3}, Srv: srvOpt{AnswerAll: true, DropFirst: 1}, CtxMode: []int{1, 1}, KeepReleased: true}, d3),
 		c01Scenario("tdc-udp-c2-loss-resend", tOpt{Kind: "tdc-udp", Callers: 2, IDs: []uint16{3, 3}, Srv: srvOpt{Reorder: true, DropFirst: 1}, CtxMode: []int{1, 1}}, d3),
 		c01Scenario("reuse-c2-seq2-cancel-reorder", tOpt{Kind: "reuse", Callers: 2, Seq: 2, IDs: []uint16{5, 5, 5, 5}, Srv: srvOpt{Reorder: true}, CtxMode: []int{2, 0}}, d3),
+		c01Scenario("tdc-tcp-c1-seq3-dup", tOpt{Kind: "tdc-tcp", Callers: 1, Seq: 3, IDs: []uint16{7, 7, 7}, Srv: srvOpt{Dup: 2}}, d),
+		c01Scenario("tdc-udp-c2-seq2-dup-stray", tOpt{Kind: "tdc-udp", Callers: 2, Seq: 2, Srv: srvOpt{Reorder: true, Dup: 1, Stray: 1}}, d3),
 		c01Scenario("reuse-c1-seq3-srvclose", tOpt{Kind: "reuse", Callers: 1, Seq: 3, IDs: []uint16{0, 0xFFFF, 0}, Srv: srvOpt{CloseBudget: 1}}, d),
 	}
 	vr.RunScenarios("C01", scs)
